@@ -7,7 +7,7 @@ import Hidi.Proto
 namespace Hidi
 
 def hexStr (s : String) : String :=
-  if s.isEmpty then "-" else String.join (s.toUTF8.toList.map (fun b => hex2 b.toNat))
+  if s.isEmpty then "-" else String.join (s.toList.map (fun c => hex2 c.toNat))
 
 /-- hex token → string (bytes are taken as code points; the model is over ASCII) -/
 def tokStr (s : String) : String := bytesToString (unhexBytes s)
